@@ -110,3 +110,70 @@ class K18b(Harness):
         return {"kinds": ["cr" if values.get("cr%d" % i) else "B" for i in range(p["n"] - 1)] + ["cr"], "lo": values.get("lo"), "hi": values.get("hi"), "a": values.get("a"), "b": values.get("b")}
 
     signature = staticmethod(_sig)
+
+
+@register
+class K08b(Harness):
+    name = "K08b"
+    prop = "C08"
+    props = ("C08", "C09")
+    title = "the clean-up that follows the structural phase (vhdlFile.fix_blank_lines, fix_trailing_whitespace, update_token_map) leaves the model in the form a fresh parse of the written text has: no blank before a line break, every empty line a blank_line token, nothing else touched; applying it again changes nothing"
+    functions = ("vsg.vhdlFile.vhdlFile", "vsg.vhdlFile.utils", "vsg.token_map", "vsg.parser")
+    stubs = ("the model is a real vhdlFile object whose token list is replaced by the symbolic sequence",)
+    bounds = "every token list 'code' + n<=5 (quick) / 6 (thorough) tokens over {whitespace, carriage_return, comment, code, blank_line} + carriage_return, that contains no blank_line token outside an empty line"
+    outside = "longer lists; a file whose very first line is empty or blank (the helpers look at the token before index 0)"
+
+    def params(self, tier):
+        return [{"n": n} for n in ([1, 2, 3, 4, 5] if tier == "quick" else [1, 2, 3, 4, 5, 6])]
+
+    def shard_target(self, p):
+        return 64
+
+    def run(self, eng, p):
+        import vsg.vhdlFile.vhdlFile  # noqa: F401
+        from vsg import vhdlFile as vhdlFile_pkg
+
+        names = ["ws", "cr", "comment", "B", "blank"]
+        n = p["n"]
+        kinds = ["B"] + [names[eng.choose("k%d" % i, len(names))] for i in range(n)] + ["cr"]
+        # well-formed input model: a blank_line token only as the sole content of a line; no two adjacent whitespace tokens
+        for i, k in enumerate(kinds):
+            if k == "blank" and not (kinds[i - 1] == "cr" and kinds[i + 1] == "cr"):
+                return True
+            if k == "ws" and kinds[i - 1] == "ws":
+                return True
+            if k == "comment" and kinds[i + 1] != "cr":
+                return True
+        toks = [dict(PALETTE)[k]() for k in kinds]
+        o = vhdlFile_pkg.vhdlFile([""])
+        o.lAllObjects = list(toks)
+        o.update_token_map()
+
+        def cleanup():
+            o.fix_blank_lines()
+            o.fix_trailing_whitespace()
+            o.update_token_map()
+
+        cleanup()
+        out = list(o.lAllObjects)
+        kind = lambda t: "blank" if isinstance(t, parser.blank_line) else "cr" if isinstance(t, parser.carriage_return) else "ws" if isinstance(t, parser.whitespace) else "comment" if isinstance(t, parser.comment) else "B"
+        ko = [kind(t) for t in out]
+        cl = []
+        cl.append(("C08:no_blank_before_line_break", not any(a == "ws" and b == "cr" for a, b in zip(ko, ko[1:]))))
+        cl.append(("C08:empty_line_is_blank_line_token", not any(a == "cr" and b == "cr" for a, b in zip(ko, ko[1:]))))
+        cl.append(("C08:blank_line_token_only_on_empty_line", all(ko[i - 1] == "cr" and ko[i + 1] == "cr" for i in range(len(ko)) if ko[i] == "blank")))
+        solid = lambda L: [t for t in L if kind(t) in ("B", "comment")]
+        cl.append(("C08:code_and_comments_untouched", len(solid(out)) == len(solid(toks)) and all(x is y for x, y in zip(solid(out), solid(toks)))))
+        cl.append(("C08:line_count_kept", ko.count("cr") == kinds.count("cr")))
+        fresh = process_tokens(out)
+        cl.append(("C08:index_rebuilt", o.oTokenMap.iMaxToken == len(out) and list(o.oTokenMap.get_token_indexes(parser.carriage_return)) == list(fresh.get_token_indexes(parser.carriage_return)) and list(o.oTokenMap.get_token_indexes(parser.blank_line)) == list(fresh.get_token_indexes(parser.blank_line))))
+        cleanup()
+        k2 = [kind(t) for t in o.lAllObjects]
+        cl.append(("C09:cleanup_is_idempotent", k2 == ko))
+        return cl
+
+    def describe(self, values, p):
+        names = ["ws", "cr", "comment", "B", "blank"]
+        return {"kinds": ["B"] + [names[values.get("k%d" % i, 0)] for i in range(p["n"])] + ["cr"]}
+
+    signature = staticmethod(_sig)
